@@ -9,14 +9,14 @@ CHECKS = {
     "C01": dict(
         category="model_checking",
         technique="stateless DFS over all resolutions of the generator's random decisions (random seam), explicit-state reachability over trees under the search operators, deviation-bounded exploration of the real fuzz loop",
-        text="(A) for every grammar of the family and node budgets 0/3/10 (thorough 0/1/3/6/10) all resolutions of Grammar.fuzz's random decisions are executed (production budgets 50/200 deviation-bounded); (B) from all small generated trees of seven collision specs, mutate / crossover / repair are applied under every resolution of their random decisions and new trees are expanded further; (C) Fandango.fuzz(population 3, 2 generations) is executed for every resolution within deviation bound 1 (thorough 2) of two base executions. Every tree produced anywhere is checked by the RefGrammar derivation checker and its serialisation must be a word of the language.",
+        text="(A) for every grammar of the family and node budgets 0/3/10 (thorough 0/1/3/6/10) all resolutions of Grammar.fuzz's random decisions are executed (production budgets 50/200 deviation-bounded); (B) from all small generated trees of seven collision specs, mutate / crossover / repair are applied under every resolution of their random decisions and new trees are expanded further; (C) Fandango.fuzz(population 3, 2 generations) is executed for every resolution within deviation bound 1 (thorough 2) of two base executions. (D) on specs whose generator text also parses as another symbol, every history of <= 1 (thorough 2) parse requests (whole forest / first tree / API parse, every start symbol) is followed by Grammar.fuzz from every symbol under every resolution. Every tree produced anywhere is checked by the RefGrammar derivation checker and its serialisation must be a word of the language.",
         note="Not exhaustive: decision trees are capped (caps reported in evidence), the loop is explored to a deviation bound. MAX_REPETITIONS is lowered to 2-3 to bound randint fan-out.",
         design="4 C01",
     ),
     "C02": dict(
         category="model_checking",
         technique="deviation-bounded exploration of the real fuzz loop plus bounded-exhaustive (tree, constraint) enumeration through the evaluator's acceptance gate, emissions re-judged by a reference evaluator on rebuilt trees",
-        text="Every tree handed to solution_callback in every loop execution within the deviation bound (seven collision specs: computed repetitions, equality repair, nested repetitions, recursion with raising operands, bits/bytes, regex/optional, generators) is rebuilt from a plain snapshot and judged by RefConstraint plus a recount of computed repetitions; additionally every enumerated tree x constraint program of the C07 family goes through Evaluator.evaluate_individual and whatever it yields must satisfy the reference.",
+        text="Every tree handed to solution_callback in every loop execution within the deviation bound (seven collision specs: computed repetitions, equality repair, nested repetitions, recursion with raising operands, bits/bytes, regex/optional, generators) is rebuilt from a plain snapshot and judged by RefConstraint plus a recount of computed repetitions; additionally every enumerated tree x constraint program of the C07 family goes through Evaluator.evaluate_individual and whatever it yields must satisfy the reference; and every tree reachable through mutate / crossover / repair (all resolutions, depth 2, thorough 3) on the collision specs is offered to a fresh evaluator, and whatever it accepts is judged the same way.",
         note="FANDANGO_RAISE_ALL_EXCEPTIONS is unset (production path). The raising-operand defect was repaired; the descendant-selector deviation is a recorded known finding.",
         design="4 C02",
     ),
@@ -30,7 +30,7 @@ CHECKS = {
     "C07": dict(
         category="model_checking",
         technique="bounded-exhaustive enumeration of (tree, constraint program) pairs, real compiled constraint (eager and lazy) vs a reference semantics",
-        text="All independently enumerated derivation trees (<= 12/11 nodes) of two grammars x ~1100 constraint programs (selectors ., .., [i], slices, *, len, |x|; comparisons, Python expressions, operands that raise; and/or; any/all/exists/forall incl. nested rebinding and sibling quantifiers) are compiled by the real front end in eager and lazy mode; constraint.check(tree) must equal the RefConstraint verdict and lazy must equal eager.",
+        text="All independently enumerated derivation trees (<= 12/11 nodes) of two grammars x ~2100 constraint programs (selectors ., .., [i], slices, *, len, |x|; all six comparison operators over str / int / float operands, Python expressions, operands that raise; and/or; any/all/exists/forall incl. nested rebinding and sibling quantifiers) are compiled by the real front end in eager and lazy mode; constraint.check(tree) must equal the RefConstraint verdict and lazy must equal eager.",
         note="Trusted: mc/refconstraint.py as the reading of docs/Paths.md. and/or over atoms is accepted under either reading (combination of universally quantified sub-formulas, or one Python expression). Three deviations are recorded known findings, one was repaired.",
         design="4 C07",
     ),
@@ -51,7 +51,7 @@ CHECKS = {
     "C10": dict(
         category="model_checking",
         technique="explicit-state BFS over histories of public tree operations and evolutionary operators (all random resolutions), invariant checked against from-scratch recomputation",
-        text="Breadth-first search (depth 2 quick / 3 thorough, 516-event alphabet) over a forest of live trees: setters, add/set children, replace, deepcopy, split_end/prefix with and without copying, indexing, slicing, selector searches, value conversion, cache warming, and mutate/crossover/repair under every resolution of their random decisions. In every state every live tree must satisfy size == recount, hash == hash of a freshly built equal tree, child.parent is the listing node, == agrees with structure, and operands of non-mutating operations are unchanged.",
+        text="Breadth-first search (depth 2 quick / 3 thorough, 516-event alphabet) over a forest of live trees: setters, add/set children, replace, deepcopy, split_end/prefix with and without copying, indexing, slicing, selector searches, value conversion, cache warming, and mutate/crossover/repair under every resolution of their random decisions. In addition the operator closure (depth 2) and the deviation-bounded loop exploration of mc/evo.py run on all collision specs (computed repetitions, generators, equality repair, bits, recursion) with the same invariant on operator inputs, results, emitted solutions and population, plus: inputs unchanged, no node object shared between a result and its inputs. In every state every live tree must satisfy size == recount, hash == hash of a freshly built equal tree, child.parent is the listing node, == agrees with structure, and operands of non-mutating operations are unchanged.",
         note="States are canonicalised on the full structural snapshot plus which hash caches are warm. The slice re-parenting defect was repaired in /repo.",
         design="4 C10",
     ),
@@ -65,7 +65,7 @@ CHECKS = {
     "C12": dict(
         category="model_checking",
         technique="explicit-state BFS over request histories on one spec object, differential oracle against a freshly built spec",
-        text="Breadth-first search over histories (depth 3 quick / 4 thorough) of parse, parse_forest, abandoned iteration, include_controlflow, prefix mode, another start symbol, API parse, fuzz-internal parses, requests that hand in a tree instead of a word, and mutation of handed-out trees, on five specs (ambiguous, generator, computed repetition, bit-level, regex+constraint); states are de-duplicated on the forest-cache content plus aliasing of held trees; every request's observation must equal the same request on a fresh spec.",
+        text="Breadth-first search over histories (depth 3 quick / 4 thorough) of parse, parse_forest, abandoned iteration, include_controlflow, prefix mode, another start symbol, API parse, fuzz-internal parses, requests that hand in a tree instead of a word, and mutation of handed-out trees, and leaf edits of handed-out trees, on six specs (ambiguous, generator, computed repetition, bit-level, bytes regex requested with str and bytes words, regex+constraint); states are de-duplicated on the forest-cache content plus aliasing of held trees; every request's observation must equal the same request on a fresh spec.",
         note="Canonical state ignores Repetition.iteration counters (observations compared modulo renaming of iteration ids). The truncated-forest-cache defect and the cache key that ignored the starter bit were repaired in /repo.",
         design="4 C12",
     ),
